@@ -21,7 +21,7 @@ def run_one(name):
         p = subprocess.run(["patch", "-p1", "-s", "-i", os.path.join(d, "patch.diff")], cwd=rp, stdout=subprocess.PIPE, stderr=subprocess.STDOUT, text=True)
         if p.returncode != 0:
             return name, prop, "PATCH-FAILED", [], p.stdout[-300:]
-        r = subprocess.run([os.path.join(ROOT, "check"), prop, "--repo", rp, "--no-evidence"], cwd=ROOT, stdout=subprocess.PIPE, stderr=subprocess.STDOUT, text=True)
+        r = subprocess.run([os.path.join(ROOT, "check"), prop, "--repo", rp, "--no-evidence", "--no-replay"], cwd=ROOT, stdout=subprocess.PIPE, stderr=subprocess.STDOUT, text=True)
         viol = [l for l in r.stdout.split("\n") if l.startswith("VIOLATION")]
         obs = sorted({re.search(r"obligation=(\S+)", l).group(1) for l in viol})
         und = [l for l in r.stdout.split("\n") if l.startswith("UNDECIDED")]
